@@ -3,10 +3,10 @@ import SleapVerif.Model.Peaks
 /-!
 Driver for C06.  One line in, one line out.
 
-`local <thr> <r> <S> <C> <h> <w> <n> v_1 … v_n`   (row-major (S,C,h,w), `r = 0` = no refinement)
+`local <thr> <p> <S> <C> <h> <w> <n> v_1 … v_n`   (row-major (S,C,h,w), `p` = integral_patch_size, `p = 0` = no refinement)
   → `<k>` then per peak `x y val sample channel px py`   (`px py` = `nan nan` without refinement,
     `inf inf` when the patch sum is 0)
-`offsets <r> <n> p_1 … p_n`  (row-major (2r+1)² patch) → `dx dy` | `inf inf`
+`offsets <p> <n> v_1 … v_n`  (row-major p×p patch) → `dx dy` | `inf inf`
 -/
 open SleapVerif SleapVerif.Proto SleapVerif.Peaks
 
@@ -31,11 +31,10 @@ def pLocal : P String := do
     pure (" ".intercalate (toString ps.length :: items))
 
 def pOffsets : P String := do
-  let r ← nat
+  let p ← nat
   let vals ← listOf rat
   let a := vals.toArray
-  let p := 2 * r + 1
-  pure (ptStr (integralOffsets r fun i j => a.getD (i * p + j) 0))
+  pure (ptStr (integralOffsets p fun i j => a.getD (i * p + j) 0))
 
 def handle (line : String) : String :=
   match tokens line with
